@@ -22,7 +22,7 @@ SHARDS = {"quick": 8, "thorough": 16}
 F32MAX = float(np.finfo(np.float32).max)
 
 
-def _stub_loss():
+def _stub_loss(signed=False):
     from black_it.loss_functions.base import BaseLoss
 
     class StubLoss(BaseLoss):
@@ -30,7 +30,12 @@ def _stub_loss():
             with np.errstate(all="ignore"):
                 return float(np.abs(np.mean(sim) - np.mean(real)) + np.abs(sim[0][0]))
 
-    return StubLoss()
+    class SignedStubLoss(BaseLoss):  # user losses may be negative (e.g. a log-likelihood): extreme values of both signs
+        def compute_loss_1d(self, sim, real):
+            with np.errstate(all="ignore"):
+                return float(sim[0][0] - np.mean(real))
+
+    return SignedStubLoss() if signed else StubLoss()
 
 
 @st.composite
@@ -38,16 +43,16 @@ def cases(draw):
     sp = draw(gen.space_spec(max_d=4, max_m=40))
     d_out = draw(st.integers(1, 3))
     n = draw(st.integers(8, 16))
-    lk = draw(st.sampled_from(["minkowski", "minkowski", "msm", "stub"]))
-    if lk == "stub":
-        loss = {"kind": "stub"}
+    lk = draw(st.sampled_from(["minkowski", "minkowski", "msm", "stub", "signed_stub"]))
+    if lk in ("stub", "signed_stub"):
+        loss = {"kind": lk}
     else:
         loss = draw(lossgen.loss_spec(d_out, n, kind=lk))
         if loss.get("filters"):
             loss["filters"] = [f if f != "hp" else "demean" for f in loss["filters"]]
         if lk == "minkowski":
             loss["p"] = draw(st.sampled_from([1, 2]))
-    model = draw(st.sampled_from(["gauss", "ar1", "poly", "extreme", "extreme"]))
+    model = draw(st.sampled_from(["gauss", "ar1", "poly", "extreme", "extreme", "negextreme"]))
     sim_length = None if lk == "minkowski" or draw(st.booleans()) else draw(st.integers(8, 20))
     cfg = {"space": sp, "lineup": draw(gen.lineup_spec(kinds=gen.CHEAP, max_len=6, max_bs=5)), "loss": loss, "model": model,
            "D": d_out, "N": n, "E": draw(st.sampled_from([1, 2, 2, 3, 4])), "seed": draw(st.integers(0, 2**32 - 2)),
@@ -69,7 +74,7 @@ def check_history(ctx: Ctx, case):
         return out
     model.__name__ = pure.__name__
 
-    loss = _stub_loss() if cfg["loss"]["kind"] == "stub" else calib.make_loss(cfg)
+    loss = _stub_loss(cfg["loss"]["kind"] == "signed_stub") if cfg["loss"]["kind"].endswith("stub") else calib.make_loss(cfg)
     loss_ref = copy.deepcopy(loss)
     with guard(ctx, "C02/exception", sub, case):
         samplers = calib.make_samplers(cfg)
@@ -202,7 +207,7 @@ def check_history(ctx: Ctx, case):
             if log["samplers"][b][1] == "XGBoostSampler" and seen_big:
                 xgb_after_big = True
             rows = slice(sum(len(o) for _, _, o in log["samplers"][:b]), sum(len(o) for _, _, o in log["samplers"][:b + 1]))
-            if np.any(np.abs(cur["losses_samp"][rows]) >= F32MAX):
+            if np.any(np.abs(cur["losses_samp"][rows]) >= F32MAX):  # either sign
                 seen_big = True
         prev = cur
     count(len(calls) >= 2 and E >= 2 and len(bss) >= 2)
